@@ -45,6 +45,8 @@ type Case struct {
 	HTTP  *HTTPEnv `json:"http,omitempty"`
 	WS    *WSEnv   `json:"ws,omitempty"`
 	Flags *Flags   `json:"flags,omitempty"`
+	Feats string   `json:"feats,omitempty"` // op cases: the principal's features
+	Hist  []Step   `json:"hist,omitempty"`  // hist cases
 }
 
 type failure struct {
@@ -107,6 +109,7 @@ func (h *harness) registerDump(text string) (MapAbs, bool) {
 
 type coreCall struct {
 	hook, feat, cost bool
+	feats            string // the principal's features in the request / connection context
 	q, op            string
 	vars, exts       string // "nil" or dump
 }
@@ -192,7 +195,7 @@ func (h *harness) evalCore(w *world, c coreCall) (Obs, error) {
 	if err != nil {
 		return Obs{}, err
 	}
-	return w.direct(c.q, c.op, vars, exts, c.feat, defaultCost(c.cost)), nil
+	return w.direct(c.q, c.op, vars, exts, c.feat, c.feats, defaultCost(c.cost)), nil
 }
 
 func cfgSexp(f Flags) string { return fmt.Sprintf("(cfg %v %v %v)", f.Hook, f.Feat, f.Cost) }
@@ -211,7 +214,8 @@ func (w *world) serveRecorder(s httpSpec) (o Obs) {
 	if s.ContentType != "" {
 		req.Header.Set("Content-Type", s.ContentType)
 	}
-	req = req.WithContext(baseContext(context.Background()))
+	req.Header.Set(featHeader, s.Feats)
+	req = req.WithContext(baseContext(context.Background(), s.Feats))
 	rec := httptest.NewRecorder()
 	w.api.ServeGraphQL(rec, req)
 	o.Status = rec.Code
@@ -303,12 +307,12 @@ func alternativeReadings(e HTTPEnv, c coreCall) []coreCall {
 }
 
 // expectedCall turns the harness's expectation "(req …)" into the pipeline call of world w.
-func expectedCall(w *world, exp string) (coreCall, bool) {
+func expectedCall(w *world, exp string, feats string) (coreCall, bool) {
 	x, err := hx.ParseSexp(exp)
 	if err != nil || !x.IsList || len(x.List) != 5 || x.List[0].Atom != "req" {
 		return coreCall{}, false
 	}
-	c := coreCall{hook: w.flags.Hook, feat: w.flags.Feat, cost: w.flags.Cost, q: x.List[1].Atom, op: x.List[2].Atom}
+	c := coreCall{hook: w.flags.Hook, feat: w.flags.Feat, cost: w.flags.Cost, feats: feats, q: x.List[1].Atom, op: x.List[2].Atom}
 	c.vars, _ = mapAtom(x.List[3])
 	c.exts, _ = mapAtom(x.List[4])
 	return c, true
@@ -330,7 +334,7 @@ func (h *harness) httpEnvProperty(e HTTPEnv, exp string) *failure {
 		}
 		return nil
 	}
-	c, ok := expectedCall(w, exp)
+	c, ok := expectedCall(w, exp, e.Spec.Feats)
 	if !ok {
 		return nil
 	}
@@ -366,7 +370,7 @@ func (h *harness) checkHTTPAPI(e HTTPEnv, fl Flags) *failure {
 		if !ok {
 			f = &failure{"property", fmt.Sprintf("malformed envelope %s: status %d, resolver log %q, execute calls %d (want 4xx and nothing executed)", desc, o.Status, o.Calls, len(o.Costs))}
 		}
-	} else if c, ok := expectedCall(w, exp); ok {
+	} else if c, ok := expectedCall(w, exp, e.Spec.Feats); ok {
 		same := false
 		var d Obs
 		for _, alt := range alternativeReadings(e, c) {
@@ -386,7 +390,7 @@ func (h *harness) checkHTTPAPI(e HTTPEnv, fl Flags) *failure {
 	// correspondence with the model's serveGraphQL
 	rep, have := h.ask("(serve-http " + cfgSexp(fl) + " " + e.absSexp() + ")")
 	if have {
-		ok, detail := h.compareServed(w, rep, o, "status")
+		ok, detail := h.compareServed(w, rep, o, e.Spec.Feats)
 		h.run.Oblige("correspondence A3: API.ServeGraphQL = model serveGraphQL (status+message | pipeline term evaluated with the real library)", "correspondence", 1, ok, desc+": "+detail)
 		if !ok && f == nil {
 			f = &failure{"correspondence", desc + ": " + detail}
@@ -396,7 +400,7 @@ func (h *harness) checkHTTPAPI(e HTTPEnv, fl Flags) *failure {
 }
 
 // compareServed compares a model reply of serve-http / serve-ws with what the implementation did.
-func (h *harness) compareServed(w *world, rep string, o Obs, errTag string) (bool, string) {
+func (h *harness) compareServed(w *world, rep string, o Obs, feats string) (bool, string) {
 	x, err := hx.ParseSexp(rep)
 	if err != nil {
 		return false, "unreadable model reply " + rep
@@ -421,6 +425,7 @@ func (h *harness) compareServed(w *world, rep string, o Obs, errTag string) (boo
 		if err != nil {
 			return false, err.Error()
 		}
+		c.feats = feats
 		d, err := h.evalCore(w, c)
 		if err != nil {
 			return false, err.Error()
@@ -464,7 +469,7 @@ func (h *harness) checkWSEnv(e WSEnv) *failure {
 // server did about the frame: "ignored", "closed <code> <text>", or the canonical response content.
 func (w *world) doWSFrame(e WSEnv, expectClose bool) Obs {
 	w.resetLogs()
-	c, err := dialWS(w.srv.URL, e.Kind, e.DidInit)
+	c, err := dialWS(w.srv.URL, e.Kind, e.DidInit, e.Feats)
 	if err != nil {
 		return Obs{Resp: "dial error: " + err.Error()}
 	}
@@ -561,7 +566,7 @@ func (h *harness) checkWSAPI(e WSEnv, fl Flags, oracleOnly bool) *failure {
 		}
 	default:
 		x, _ := hx.ParseSexp(exp)
-		c := coreCall{hook: fl.Hook, feat: fl.Feat, cost: fl.Cost, q: x.List[2].Atom, op: x.List[4].Atom, exts: "nil"}
+		c := coreCall{hook: fl.Hook, feat: fl.Feat, cost: fl.Cost, feats: e.Feats, q: x.List[2].Atom, op: x.List[4].Atom, exts: "nil"}
 		c.vars, _ = mapAtom(x.List[3])
 		d, err := h.evalCore(w, c)
 		same := err == nil && d.key() == o.key()
@@ -577,7 +582,7 @@ func (h *harness) checkWSAPI(e WSEnv, fl Flags, oracleOnly bool) *failure {
 	}
 	rep, have := h.ask("(serve-ws " + cfgSexp(fl) + " " + e.absSexp() + ")")
 	if have {
-		ok, detail := h.compareServed(w, rep, o, "closed")
+		ok, detail := h.compareServed(w, rep, o, e.Feats)
 		h.run.Oblige("correspondence A4: API.ServeGraphQLWS = model serveWS (nothing | closed code text | pipeline term evaluated with the real library)", "correspondence", 1, ok, desc+": "+detail)
 		if !ok && f == nil {
 			f = &failure{"correspondence", desc + ": " + detail}
@@ -621,12 +626,14 @@ func (h *harness) modelLineForCarrier(c string, op Op, vars MapAbs, fl Flags) st
 	}
 }
 
-func (h *harness) runCarrier(w *world, c string, op Op, sp *hx.Rand) Obs {
+func (h *harness) runCarrier(w *world, c string, op Op, feats string, sp *hx.Rand) Obs {
 	switch c {
 	case cGet, cPostJSON, cPostGraphQL:
-		return w.doHTTP(httpEnvelope(sp, c, op))
+		spec := httpEnvelope(sp, c, op)
+		spec.Feats = feats
+		return w.doHTTP(spec)
 	default:
-		return w.doWS(sp, c, envelopeJSON(sp, op, true))
+		return w.doWS(sp, c, feats, envelopeJSON(sp, op, true))
 	}
 }
 
@@ -667,7 +674,7 @@ func (h *harness) checkOp(cs Case, verbose bool) opResult {
 	for _, w := range h.worlds {
 		fl := w.flags
 		// the operation run without any transport
-		ref, err := h.evalCore(w, coreCall{hook: fl.Hook, feat: fl.Feat, cost: fl.Cost, q: op.Query, op: op.OpName, vars: varsAtom, exts: "nil"})
+		ref, err := h.evalCore(w, coreCall{hook: fl.Hook, feat: fl.Feat, cost: fl.Cost, feats: cs.Feats, q: op.Query, op: op.OpName, vars: varsAtom, exts: "nil"})
 		if err != nil {
 			res.fail = &failure{"correspondence", err.Error()}
 			return res
@@ -692,7 +699,7 @@ func (h *harness) checkOp(cs Case, verbose bool) opResult {
 				continue
 			}
 			sp := spellRand(cs.Seed, c+fl.String())
-			o := h.runCarrier(w, c, op, sp)
+			o := h.runCarrier(w, c, op, cs.Feats, sp)
 			res.byCarrier[fl.String()+"/"+c] = o.key()
 			if verbose {
 				fmt.Printf("  [%s] %-22s %s\n", fl, c+":", o.key())
@@ -703,8 +710,8 @@ func (h *harness) checkOp(cs Case, verbose bool) opResult {
 				// rule out nondeterminism of the pipeline itself (map-order dependent error choice)
 				stable := true
 				for i := 0; i < 4 && stable; i++ {
-					r2, _ := h.evalCore(w, coreCall{hook: fl.Hook, feat: fl.Feat, cost: fl.Cost, q: op.Query, op: op.OpName, vars: varsAtom, exts: "nil"})
-					o2 := h.runCarrier(w, c, op, spellRand(cs.Seed, c+fl.String()))
+					r2, _ := h.evalCore(w, coreCall{hook: fl.Hook, feat: fl.Feat, cost: fl.Cost, feats: cs.Feats, q: op.Query, op: op.OpName, vars: varsAtom, exts: "nil"})
+					o2 := h.runCarrier(w, c, op, cs.Feats, spellRand(cs.Seed, c+fl.String()))
 					if r2.key() != ref.key() || o2.key() != o.key() {
 						stable = false
 					}
@@ -730,7 +737,7 @@ func (h *harness) checkOp(cs Case, verbose bool) opResult {
 				if verbose {
 					fmt.Printf("  [%s] %-22s model: %s\n", fl, c+":", rep)
 				}
-				ok, detail := h.compareServedCached(w, rep, o, ref, coreCall{hook: fl.Hook, feat: fl.Feat, cost: fl.Cost, q: op.Query, op: op.OpName, vars: varsAtom, exts: "nil"})
+				ok, detail := h.compareServedCached(w, rep, o, ref, coreCall{hook: fl.Hook, feat: fl.Feat, cost: fl.Cost, feats: cs.Feats, q: op.Query, op: op.OpName, vars: varsAtom, exts: "nil"})
 				h.run.Oblige("correspondence B: model serve_t(encode_t r) — its pipeline term evaluated with the real library — equals what carrier t delivered", "correspondence", 1, ok, detail)
 				if !ok && res.fail == nil {
 					res.fail = &failure{"correspondence", fmt.Sprintf("[%s] %s: %s", fl, c, detail)}
@@ -755,8 +762,8 @@ func (h *harness) checkOp(cs Case, verbose bool) opResult {
 		}
 		if !same {
 			// nondeterminism check
-			a2, _ := h.evalCore(w, coreCall{hook: true, feat: plain.Feat, cost: plain.Cost, q: op.Query, op: op.OpName, vars: varsAtom, exts: "nil"})
-			b2, _ := h.evalCore(h.world(plain), coreCall{hook: false, feat: plain.Feat, cost: plain.Cost, q: op.Query, op: op.OpName, vars: varsAtom, exts: "nil"})
+			a2, _ := h.evalCore(w, coreCall{hook: true, feat: plain.Feat, cost: plain.Cost, feats: cs.Feats, q: op.Query, op: op.OpName, vars: varsAtom, exts: "nil"})
+			b2, _ := h.evalCore(h.world(plain), coreCall{hook: false, feat: plain.Feat, cost: plain.Cost, feats: cs.Feats, q: op.Query, op: op.OpName, vars: varsAtom, exts: "nil"})
 			if a2.key() != a.key() || b2.key() != b.key() {
 				if os.Getenv("C17_DEBUG") != "" {
 					fmt.Printf("UNSTABLE-CLONE [%s]\n  a:  %s\n  a2: %s\n  b:  %s\n  b2: %s\n  query %q vars %s\n", plain, a.key(), a2.key(), b.key(), b2.key(), op.Query, strPtr(op.Vars))
@@ -785,11 +792,15 @@ func strPtr(s *string) string {
 func (h *harness) compareServedCached(w *world, rep string, o Obs, ref Obs, refCall coreCall) (bool, string) {
 	x, err := hx.ParseSexp(rep)
 	if err == nil && x.IsList && (x.List[0].Atom == "ok" || x.List[0].Atom == "data") {
-		if c, err := parseExecTerm(x.List[len(x.List)-1]); err == nil && c == refCall {
+		if c, err := parseExecTerm(x.List[len(x.List)-1]); err == nil {
+			c.feats = refCall.feats
+			if c != refCall {
+				return h.compareServed(w, rep, o, refCall.feats)
+			}
 			return ref.key() == o.key(), fmt.Sprintf("model: %s which evaluates to %s; implementation: %s", x.List[len(x.List)-1].String(), ref.key(), o.key())
 		}
 	}
-	return h.compareServed(w, rep, o, "")
+	return h.compareServed(w, rep, o, refCall.feats)
 }
 
 // ---- shrinking of op cases -------------------------------------------------------------------------------
